@@ -52,7 +52,7 @@ TRUSTED = (
     "(`cfamily`/`pfamily` of tools/tie_modegamma/MGFlowBase.v); only pattern-checked: the comprehension texts "
     "`volume.volume` / `volume.q_points[a].modes[b]` over `qha_input.volumes`, numpy.zeros shapes, qha_input.nq/np as "
     "loop bounds; helper default orders are recorded, not asserted; hand-written vocabulary and lemma files "
-    "tools/tie_modegamma/*.v (MGFlowBase.wf_loop_sem is proved for every well-formed loop flow)"
+    "tools/tie_modegamma/*.v (MGLoopSem.wf_loop_sem is proved for every well-formed loop flow)"
 )
 
 
@@ -105,10 +105,10 @@ def static_tie(ctx, rd: Path, groups=tuple(GROUPS)):
         write(rd / "Gen_modegamma.v", T.GEN_HEADER % T.SRC)
 
     # ---- 2. vocabulary + generated definitions --------------------------------------------------------------
-    for f in ("MGFlowBase.v", "MGFlowR.v"):
+    for f in ("MGFlowBase.v", "MGFlowR.v", "MGLoopSem.v"):
         write(rd / f, (TEMPLATES / f).read_text())
     ok_base, out_base = vlib.coqc(rd / "MGFlowBase.v", extra_Q=XQ, timeout=300)
-    pre = [rd / "Gen_modegamma.v", rd / "MGFlowR.v"]
+    pre = [rd / "Gen_modegamma.v", rd / "MGFlowR.v", rd / "MGLoopSem.v"]
     r = vlib.coqc_many(pre, extra_Q=XQ, timeout=300) if ok_base else {p: (False, out_base) for p in pre}
     ok_gen = ok_base and all(v[0] for v in r.values())
     ctx.obligation("static tie: tools/translate_modegamma.py -> Gen_modegamma.v (regenerated from %s) compiles" % T.SRC,
@@ -124,7 +124,7 @@ def static_tie(ctx, rd: Path, groups=tuple(GROUPS)):
             failed.append(g)
             continue
         if not ok_gen:
-            ctx.obligation(name, "translator-tie", False, "Gen_modegamma.v / MGFlowBase.v / MGFlowR.v do not compile")
+            ctx.obligation(name, "translator-tie", False, "Gen_modegamma.v / MGFlowBase.v / MGFlowR.v / MGLoopSem.v do not compile")
             failed.append(g)
             continue
         ok, out = res[rd / FILE_OF[g]]
